@@ -29,13 +29,15 @@ def gen_kinds(rng, n, pattern):
 
 
 def doc_children(kinds):
-    ont = G.ontology_xml([('o', 'string:0:mc:u')], [{'name': 'ta', 'properties': [{'name': 'p', 'object_type': 'o'}]}], ['/s/'])
+    ont = G.ontology_xml([('o', 'string:0:mc:u')], [{'name': 'ta', 'properties': [{'name': 'p', 'object_type': 'o'}]},
+                                                    {'name': 'tb', 'properties': [{'name': 'p', 'object_type': 'o'}]}], ['/s/'])
     out, i = [], 0
     for k in kinds:
         if k:
             out.append(ont)
         else:
-            out.append(G.event_xml('ta', '/s/', [('p', 'v%d' % i)]))
+            # two event types, the first one rare (every 97th event): parsers with handlers for only one of them still release every event
+            out.append(G.event_xml('tb' if i % 97 else 'ta', '/s/', [('p', 'v%d' % i)]))
             i += 1
     return out
 
@@ -45,8 +47,15 @@ def run_impl(kinds, mode, chunk=0):
     from edxml.error import EDXMLValidationError
     rec = {'retained': [], 'positions': [], 'root': None}
     custom = mode.endswith('+custom-event-class')
-    mode = mode.replace('+custom-event-class', '')
+    partial = mode.endswith('+handlers-for-one-type-no-validation')
+    mode = mode.replace('+custom-event-class', '').replace('+handlers-for-one-type-no-validation', '')
     base = EDXMLPullParser if mode in ('pull', 'pullfile') else EDXMLPushParser
+
+    def seen_event(e):
+        parent = e.getparent()
+        rec['root'] = parent
+        rec['retained'].append(len(parent))
+        rec['positions'].append(parent.index(e) + 1)
 
     class P(base):
         def _parsed_ontology(self, o):
@@ -54,15 +63,13 @@ def run_impl(kinds, mode, chunk=0):
             root = self._EDXMLParserBase__root_element
             rec['root'] = root
             rec['retained'].append(len(root))
-
-        def _parsed_event(self, e):
-            parent = e.getparent()
-            rec['root'] = parent
-            rec['retained'].append(len(parent))
-            rec['positions'].append(parent.index(e) + 1)
+    if not partial:
+        P._parsed_event = lambda self, e: seen_event(e)
     children = doc_children(kinds)
     data = G.document(children)
-    p = P()
+    p = P(validate=False) if partial else P()
+    if partial:
+        p.set_event_type_handler(['ta'], seen_event)       # events of type tb reach no handler at all
     if custom:
         from edxml.event import ParsedEvent
 
@@ -117,6 +124,45 @@ AGREE = ('fun c => match c with (alt, doc, out) => '
          'result_eqb (if alt then run_alternate Code doc else run_positions Code doc) out end')
 
 
+def xml_mediator_growth(n, junk, how):
+    """records <a> with clutter in between through XmlTranscoderMediator; the clutter is associated with the NullTranscoder either element by
+    element ('exact') or through the element that contains everything ('container'); returns the largest number of children of <records>
+    seen while a record is transcoded"""
+    from edxml.transcode.xml import XmlTranscoderMediator, XmlTranscoder
+    from edxml.transcode import NullTranscoder
+    seen = []
+
+    class R(XmlTranscoder):
+        TYPES = ['rec.x']
+        TYPE_MAP = {'.': 'rec.x'}
+        TYPE_PROPERTIES = {'rec.x': {'p1': 'ot-s'}}
+        PROPERTY_MAP = {'rec.x': {'p1': 'p1'}}
+
+        def create_object_types(self, ontology):
+            ontology.create_object_type('ot-s')
+
+        def generate(self, element, record_selector, **kwargs):
+            seen.append(element.getparent().index(element))       # delivered siblings still in the tree (read-ahead does not count)
+            yield from super().generate(element, record_selector, **kwargs)
+    parts = [b'<root><records>']
+    for i in range(n):
+        parts.append(b'<a><p1>v%d</p1></a>' % (i % 1000))
+        parts.append(b'<x><y>junk</y></x><z/>' * junk)
+    parts.append(b'</records></root>')
+    out = io.BytesIO()
+    with XmlTranscoderMediator(out) as m:
+        m.register('/root/records/a', R())
+        if how == 'exact':
+            m.register('/root/records/x', NullTranscoder())
+            m.register('/root/records/z', NullTranscoder())
+        else:
+            m.register('/root/records', NullTranscoder())
+        m.add_event_source('/s/')
+        m.set_event_source('/s/')
+        m.parse(io.BytesIO(b''.join(parts)))
+    return max(seen or [0]), len(seen)
+
+
 def replay(path):
     obj = json.load(open(path))
     if obj.get('kind') != 'failing-input':
@@ -156,7 +202,7 @@ def main(argv):
         modes = ['pushb', 'pull', 'pushall', 'push%d' % rng.choice([1, 7, 37, 200])]
         if n > 1000:
             modes = ['pushb', 'pullfile', 'push%d' % rng.choice([37, 61, 4096])]
-        modes += [rng.choice(['pull', 'pushb', 'pushall']) + '+custom-event-class']
+        modes += [rng.choice(['pull', 'pushb', 'pushall']) + '+custom-event-class', rng.choice(['pull', 'pushb', 'pushall']) + '+handlers-for-one-type-no-validation']
         for mode in modes:
             chunk = int(mode[4:]) if mode.startswith('push') and mode[4:].isdigit() else 0
             m = 'chunk' if chunk else mode
@@ -181,11 +227,29 @@ def main(argv):
                 ck.oracle_failures.append({'signature': sig, 'input': {'kinds': kinds if n <= 200 else kinds[:200], 'n': n, 'pattern': pat,
                                                                       'mode': m, 'chunk': chunk}, 'observed': detail,
                                            'expected': 'retained - undelivered <= small constant'})
-            alt = m == 'pushb'
+            if '+handlers-for-one-type' in m:
+                continue          # only every other event is observed: judged by the oracle, not fed to the bookkeeping model
+            alt = m.startswith('pushb')
             out = (res['retained'] if alt else res['positions'], res['final'], res['ok'])
             terms.append(coq((alt, kinds, out)))
             meta.append({'n': n, 'pattern': pat, 'mode': m, 'chunk': chunk, 'impl': {'max': max(out[0] or [0]), 'final': res['final'], 'ok': res['ok']},
                          'kinds': kinds if n <= 60 else None})
+    # the XML transcoder mediator: transcoded records and clutter associated with the NullTranscoder are released as the input is read
+    for how in ('exact', 'container'):
+        for junk in (1, 3):
+            nrec = ck.budget(600, 6000)
+            try:
+                worst, nseen = xml_mediator_growth(nrec, junk, how)
+            except Exception as e:
+                ck.oracle_failures.append({'signature': 'xml-mediator/raises/' + type(e).__name__, 'input': {'records': nrec, 'junk': junk, 'null_transcoder': how},
+                                           'observed': repr(e)[:200]})
+                continue
+            ck.cov['evaluations'] += 1
+            ck.dist('xml-mediator:' + how)
+            bound = 1 + 2 * junk + 3          # the previously transcoded record, the clutter between the two records, slack
+            if nseen != nrec or worst > bound:
+                ck.oracle_failures.append({'signature': 'growth/xml-mediator-input-tree/' + how, 'input': {'records': nrec, 'junk': junk, 'null_transcoder': how},
+                                           'observed': '%d records transcoded; up to %d delivered siblings still under <records> while transcoding (bound %d)' % (nseen, worst, bound)})
     ck.cov['rule'] = ('child-kind sequences (patterns events/updates/periodic/two-initial/random, 1-40 children and %d-children streams) x '
                       'feed modes (child-boundary push, pull, push-all, chunked push 1/7/37/200/4096 bytes, pull from a file); '
                       'non-trivial = at least 3 events; distinct by (kinds, mode, chunk)' % big)
